@@ -262,11 +262,11 @@ Qed.
 
 Lemma repeater_le_non_repeater cr cn : In cr band_configs -> In cn band_configs ->
   c_name cr = c_name cn -> c_dwell cr = c_dwell cn -> c_rep cr = true -> c_rep cn = false ->
-  forall ver rev dr m n, version_query_sane ver = true ->
+  forall ver rev dr m n,
   get_max_payload (c_tab cr) ver rev dr = Ok (m, n) ->
   exists m' n', get_max_payload (c_tab cn) ver rev dr = Ok (m', n') /\ m <= m' /\ n <= n'.
 Proof.
-  intros Hcr Hcn Hname Hdw Hr Hn ver rev dr m n Hsane Hget.
+  intros Hcr Hcn Hname Hdw Hr Hn ver rev dr m n Hget.
   pose proof rep_check_ok as H. unfold rep_check in H.
   rewrite forallb_forall in H. specialize (H cr Hcr). rewrite forallb_forall in H. specialize (H cn Hcn).
   assert (P : is_rep_pair cr cn = true).
@@ -279,7 +279,6 @@ Proof.
   assert (IRr : incl (rev_keys tr) KR) by (unfold KR, pair_KR; apply incl_appl, incl_refl).
   assert (IRn : incl (rev_keys tn) KR) by (unfold KR, pair_KR; apply incl_appr, incl_refl).
   rewrite forallb_forall in H. specialize (H (canon KV ver) (canon_in _ _)).
-  rewrite (canon_sane KV ver Hsane) in H.
   rewrite forallb_forall in H. specialize (H (canon KR rev) (canon_in _ _)).
   unfold rep_le_check in H.
   destruct (get_max_payload_Ok _ _ _ _ _ Hget) as [st [Hsel [_ [Hin _]]]].
@@ -289,6 +288,20 @@ Proof.
   { unfold get_max_payload. now rewrite (select_size_table_canon tn KV KR ver rev IVn IRn). }
   rewrite E. destruct (get_max_payload tn (canon KV ver) (canon KR rev) dr) as [[m' n']| | |]; try discriminate.
   exists m', n'. apply size_le_spec in H. cbn [fst snd] in H. tauto.
+Qed.
+
+(* ---- the map keys are protocol versions / revisions ------------------------------------ *)
+
+Lemma version_keys_check_ok : version_keys_check = true.
+Proof. vm_compute. reflexivity. Qed.
+
+Lemma table_keys c : In c band_configs ->
+  (forall v, In v (skeys (t_maxpl (c_tab c))) -> In v (latest :: protocol_versions))
+  /\ (forall r, In r (rev_keys (c_tab c)) -> In r (latest :: reg_param_revisions)).
+Proof.
+  intros Hc. pose proof version_keys_check_ok as H. unfold version_keys_check in H.
+  rewrite forallb_forall in H. specialize (H c Hc). apply andb_true_iff in H as [H1 H2].
+  rewrite forallb_forall in H1, H2. split; intros x Hx; apply str_mem_In; auto.
 Qed.
 
 (* ---- sizes never shrink as the spreading factor decreases --------------------- *)
